@@ -67,10 +67,12 @@ impl Check for C10 {
             Tier::Thorough => 1_500_000,
         }
     }
-    fn generate(&self, seed: u64, _tier: Tier) -> HubSc {
+    fn generate(&self, seed: u64, tier: Tier) -> HubSc {
         let mut r = Rng::new(seed);
         let n = r.urange(2, 4);
         let (init, clients) = gen_clients(&mut r, n, true, 5);
+        // thorough: one scenario in 25 sweeps EVERY kill point of one server (nth = 0)
+        let sweep = tier == Tier::Thorough && r.below(25) == 0;
         let mut pipe_cap = pick_pipe_cap(&mut r, &clients);
         // a client that sends excess bytes without reading can only wedge a tiny pipe:
         // that is the client's protocol violation, not a hub property
@@ -78,7 +80,9 @@ impl Check for C10 {
         if excess {
             pipe_cap = pipe_cap.max(65536);
         }
-        let kill = if r.below(3) == 0 {
+        let kill = if sweep {
+            Some((r.below(n as u64) as u32, 0, r.below(2) as u8))
+        } else if r.below(3) == 0 {
             Some((r.below(n as u64) as u32, r.range(1, 60) as u32, r.below(2) as u8))
         } else {
             None
@@ -95,6 +99,39 @@ impl Check for C10 {
         }
     }
     fn execute(&self, sc: &HubSc) -> RunReport {
+        if let Some((srv, 0, class)) = sc.kill {
+            // kill sweep: reference run without the kill counts the server's calls, then one
+            // execution per kill point (same schedule seed: the prefix before the kill is identical)
+            let mut base = sc.clone();
+            base.kill = None;
+            let mut rep = self.execute(&base);
+            if rep.violation.is_some() || rep.harness_error.is_some() {
+                return rep;
+            }
+            let refrun = run_hub(&base, None);
+            let n = refrun
+                .out
+                .proc_by_role(&format!("serve{srv}"))
+                .map_or(0, |p| p.count(if class == 1 { OpClass::Mutating } else { OpClass::FsCall }));
+            for k in 1..=n.min(400) {
+                let mut s = sc.clone();
+                s.kill = Some((srv, k, class));
+                let r2 = self.execute(&s);
+                rep.execs += r2.execs;
+                rep.steps += r2.steps;
+                for (f, v) in &r2.faults {
+                    rep.fault(f, *v);
+                }
+                if r2.violation.is_some() {
+                    rep.violation = r2.violation;
+                    return rep;
+                }
+            }
+            rep.probe("kill_sweeps", 1);
+            rep.probe("kill_points_swept", u64::from(n.min(400)));
+            rep.nontrivial = true;
+            return rep;
+        }
         let mut rep = RunReport::default();
         let (_, init) = build_world(sc);
         let allowed = Arc::new(allowed_map(sc, &init));
@@ -182,6 +219,17 @@ impl Check for C10 {
     }
     fn shrink(&self, sc: &HubSc) -> Vec<HubSc> {
         let mut v = shrink_hub(sc);
+        if let Some((srv, 0, class)) = sc.kill {
+            let mut pins: Vec<HubSc> = (1..=400u32)
+                .map(|k| {
+                    let mut s = sc.clone();
+                    s.kill = Some((srv, k, class));
+                    s
+                })
+                .collect();
+            pins.extend(v);
+            return pins;
+        }
         if sc.kill.is_some() {
             let mut s = sc.clone();
             s.kill = None;
